@@ -227,7 +227,8 @@ def run(prop, tier, seed):
         if prop == "C11":
             probs = refchk.struct_valid(res, spec)
             before = set(refchk.struct_valid(data, spec))
-            new = [p for p in probs if p not in before]
+            # `strict:` probes carry a structural defect on purpose: the save must raise or repair it
+            new = probs if tag.startswith("strict:") else [p for p in probs if p not in before]
             for p in new[:3]:
                 out.violations.append(dict(base, oracle="every emitted CHK is structurally valid", problem=p, key=None))
     # de-duplicate violations by key so that every known finding is reported once per run
@@ -289,7 +290,18 @@ def probe_maps(gen, spec):
     # 3. unknown sections whose 4 name bytes are valid multi-byte UTF-8 (fewer than 4 characters), invalid
     #    UTF-8, NULs; empty and duplicated
     extra = [(b"\xc3\xa9AB", b"payload-1"), (b"\xe2\x82\xacZ", b""), (b"\xf0\x9f\x98\x80", b"\x00\x01\x02"), (b"\xff\xfeAB", b"xyz"), (b"\xc3\xa9AB", b"again"), (b"A\x00\x00\x00", b"nul")]
-    out.append(("editor:probe-utf8-section-names", with_sections({}, extra)))
+    # a recognised section without rich model next to STR (STRx), always present in one map
+    extra2 = [(b"STRx", struct.pack("<III", 2, 12, 15) + b"ab\x00c\x00\x00")]
+    out.append(("editor:probe-utf8-section-names", with_sections({}, extra + extra2)))
+    # 4. a string id whose offset lies outside the section (at its end / far beyond): the save raises, or the
+    #    emitted table is valid -- never a table with an offset outside the section
+    strp = dict(chunks)[b"STR "]
+    n = struct.unpack_from("<H", strp, 0)[0]
+    for what, bad in (("end", len(strp) + 2), ("far", 0xFFF0)):
+        # one more id: every existing offset moves by 2 (the table grew by one entry)
+        offs = [struct.unpack_from("<H", strp, 2 + 2 * i)[0] + 2 for i in range(n)]
+        newp = struct.pack("<H", n + 1) + b"".join(struct.pack("<H", o) for o in offs) + struct.pack("<H", bad) + strp[2 + 2 * n:]
+        out.append(("strict:probe-str-offset-outside-" + what, with_sections({b"STR ": newp})))
     return out
 
 
